@@ -826,8 +826,67 @@ def symptoms(case, R=None):
     return out
 
 
+def tseitin_axiom_symptoms(case, R=None):
+    """Tseitin on a graph too large for the assignment engines: the clause
+    set must be, vertex by vertex, exactly the 2^(d-1) clauses over the
+    variables of the incident edges that forbid the wrong parity (that is what
+    the documented formula is; nothing else may be there).  Edges are
+    recognised through the variable names."""
+    from ref.sem import parse_name
+    out = []
+    F = build(case)
+    n, edges = case['n'], [tuple(sorted(e)) for e in E(case)]
+    charges = case['charges']
+    names = list(F.all_variable_labels())
+    if F.number_of_variables() != len(edges) or len(names) != len(edges):
+        return [('nvars', 'formula declares %d variables, the graph has %d edges' %
+                 (F.number_of_variables(), len(edges)))]
+    var_of = {}
+    for i, nm in enumerate(names, start=1):
+        a = parse_name(nm)
+        try:
+            e = tuple(sorted(a[1]))
+        except Exception:
+            return [('names', 'variable %d is named %r' % (i, nm))]
+        var_of[e] = i
+    if sorted(var_of) != sorted(edges):
+        return [('names', 'the named variables are the edges %r..., the graph has %r...' %
+                 (sorted(var_of)[:5], sorted(edges)[:5]))]
+    at = {v: frozenset(var_of[e] for e in edges if v in e) for v in range(1, n + 1)}
+    owner = {}
+    for v, vs in at.items():
+        owner.setdefault(vs, []).append(v)
+    seen = {v: set() for v in at}
+    for cl in clause_view(F):
+        vs = frozenset(abs(l) for l in cl)
+        if len(vs) != len(cl) or vs not in owner:
+            return [('axioms:extra', 'clause %r... is not over the edges of one vertex' % (cl[:8],))]
+        neg = sum(1 for l in cl if l < 0)
+        ok = False
+        for v in owner[vs]:
+            # the clause forbids the assignment that makes all its literals
+            # false: true edges = its negated variables; forbidden iff wrong parity
+            if neg % 2 != int(bool(charges[v - 1])):
+                seen[v].add(tuple(sorted(l for l in cl if l < 0)))
+                ok = True
+        if not ok:
+            return [('axioms:extra', 'clause with %d negated literals over the edges of vertex %r forbids a '
+                                     'RIGHT parity' % (neg, owner[vs]))]
+    for v, vs in at.items():
+        want = 1 << (len(vs) - 1) if vs else (1 if charges[v - 1] else 0)
+        if len(seen[v]) != want:
+            return [('axioms:missing', 'vertex %d of degree %d has %d of its %d parity clauses' %
+                     (v, len(vs), len(seen[v]), want))]
+    if R is not None:
+        R.stats['axiom_oracle_clauses'] += len(F)
+        R.nt = True
+    return out
+
+
 def _symptoms(case, R=None):
     out = []
+    if case.get('axiom_oracle'):
+        return tseitin_axiom_symptoms(case, R)
     X = expectation(case)
     try:
         F = build(case)
@@ -1257,6 +1316,11 @@ def cases(tier, seed):
         star2 = [[v, n] for v in range(1, n)]
         yield {'fam': 'tseitin', 'n': n, 'E': star2, 'charges': [True] * leaves + [leaves % 2 == 1]}
         yield {'fam': 'tseitin', 'n': n, 'E': star2, 'charges': [True] * leaves + [leaves % 2 == 0]}
+    # ---- a vertex with 20 higher-numbered neighbours FOLLOWED by another vertex
+    # with a higher-numbered neighbour (adjacency lists long enough for a
+    # binary search; a tree, so propagation decides it): 2^19 clauses
+    hub = [[1, v] for v in range(2, 22)] + [[2, 22]]
+    yield {'fam': 'tseitin', 'n': 22, 'E': hub, 'charges': [True] + [False] * 20 + [True], 'axiom_oracle': True}
 
 
 # ==================================================================== shards
